@@ -294,7 +294,7 @@ class RCfg:
                  descriptions=True, nothing=True, formats=True,
                  bool_lookalike_literals=True, valid_defaults_only=False,
                  equal_to_default_kw=False, kw_max=3, literal_constraints=True,
-                 compose_bias=0, extreme_literals=False):
+                 compose_bias=0, extreme_literals=False, unicode_class_names=False):
         self.__dict__.update(locals())
         del self.__dict__["self"]
 
@@ -384,6 +384,9 @@ def _node(draw, cfg, depth, gen, kinds=None):
     sub_node = lambda: _node(cfg, depth - 1, gen)  # noqa: E731
     if kind == "Object":
         node["name"] = gen.class_names.pop(0)
+        if getattr(cfg, "unicode_class_names", False) and draw(st.integers(0, 3)) == 0:
+            # a legal identifier outside ASCII (class Café(Object): ...)
+            node["name"] += draw(st.sampled_from(["\u00e9", "\u00df", "\u00dc", "\u00f1o"]))
         # the base must be complete before this node starts (build order)
         if cfg.inheritance and draw(st.integers(0, 3)) == 0:
             bases = [n for n in gen.done if n["kind"] == "Object"]
@@ -706,6 +709,7 @@ def mutate(draw, recipe):
         ops.append("kind")
     if kind in ("AnyOf", "OneOf", "AllOf") and len(node["elements"]) > 1:
         ops.append("reorder")
+        ops += ["nest", "nest"]
     if kind == "Object":
         ops.append("rename-class")
     if not ops:
@@ -756,6 +760,12 @@ def mutate(draw, recipe):
             node.pop("props", None)
     elif op == "reorder":
         node["elements"] = list(reversed(node["elements"]))
+    elif op == "nest":
+        # the first two members wrapped in a composition of the SAME kind: oneOf(oneOf(a, b), c) is not oneOf(a, b, c)
+        inner = {"id": max(index(new)) + 1000, "kind": kind, "kw": {}, "elements": node["elements"][:2]}
+        node["elements"] = [inner] + node["elements"][2:]
+        if len(node["elements"]) == 1:
+            node["elements"].append({"id": max(index(new)) + 1001, "kind": "Element", "kw": {"minimum": 0}})
     elif op == "rename-class":
         node["name"] = node["name"] + "X"
     new = repair_refs(new, index(recipe))
